@@ -1,7 +1,9 @@
 package main
 
 import (
+	"fmt"
 	"go/types"
+	"sort"
 	"strings"
 
 	"golang.org/x/tools/go/ssa"
@@ -11,9 +13,9 @@ func init() {
 	propFuncs["C19"] = propC19
 	propInfos["C19"] = &PropInfo{
 		Level:   "other",
-		Explain: "Structural necessary conditions decided statically — NOT that the results equal the definition of dominance (that is a fixed point over the paths of an input graph and stays undecided). Decided: IDom follows the Cooper–Harvey–Kennedy iteration the source cites: post-order numbering poNum[po[i]] = i of PostOrder(g, root), reverse post-order processing, all entries start at the -1 sentinel, the root is its own idom during the iteration and is reset to -1 afterwards (pairing), the iteration repeats while something changed, per node the new idom is the first PROCESSED predecessor (idom[p] != -1) intersected with the other processed predecessors, idom[b] is updated exactly when it differs and that sets changed; intersect advances the finger with the smaller post-order number through idom until the fingers meet; DomFrontier handles joins only (>= 2 predecessors), walks runner = pred, runner = idom[runner] while runner != idom[b], adding b to df[runner] once; sentinel discipline (sibling agreement with IDom, which skips predecessors whose idom is -1): between taking a predecessor from g.In(b) and indexing with the walk variable the -1 sentinel must be tested (on the predecessor, or in the walk's condition) — otherwise an unreachable predecessor of a reachable join indexes with -1; Dom inverts idom: counts children per parent skipping -1, carves capacity-limited child slices from one backing array, appends each node to its parent's list; engine A: none of them writes its inputs.",
+		Explain: "Structural necessary conditions decided statically — NOT that the results equal the definition of dominance (that is a fixed point over the paths of an input graph and stays undecided). Decided: IDom follows the Cooper–Harvey–Kennedy iteration the source cites: post-order numbering poNum[po[i]] = i of PostOrder(g, root), reverse post-order processing, all entries start at the -1 sentinel, the root is its own idom during the iteration and is reset to -1 afterwards (pairing), the iteration repeats while something changed, per node the new idom is the first PROCESSED predecessor (idom[p] != -1) intersected with the other processed predecessors, idom[b] is updated exactly when it differs and that sets changed; intersect advances the finger with the smaller post-order number through idom until the fingers meet; DomFrontier goes through the predecessors of b exactly when b is a join (>= 2 predecessors) that is reachable or the root, starts a walk from exactly the predecessors that are reachable or the root (both directions: reach condition ≡ !(len(g.In(b))<2) && !(idom[b]==-1 && b!=root), resp. !(idom[pred]==-1 && pred!=root)), walks runner = pred, runner = idom[runner] while runner != idom[b], adding b to df[runner] once; sentinel discipline (sibling agreement with IDom, which skips predecessors whose idom is -1): between taking a predecessor from g.In(b) and indexing with the walk variable the -1 sentinel must be tested (on the predecessor, or in the walk's condition) — otherwise an unreachable predecessor of a reachable join indexes with -1; Dom inverts idom: counts children per parent skipping -1, carves capacity-limited child slices from one backing array, appends each node to its parent's list; engine A: none of them writes its inputs.",
 		Assume:  []string{"A2", "node ids are non-negative"},
-		Undec:   []string{"that IDom/Dom/DomFrontier equal the definitions of dominance on every graph (the fixed point itself)", "termination on irreducible graphs", "membership of the root in its own frontier"},
+		Undec:   []string{"that IDom/Dom/DomFrontier equal the definitions of dominance on every graph (the fixed point itself)", "termination on irreducible graphs"},
 	}
 }
 
@@ -432,6 +434,50 @@ func propC19(a *Analysis, r *Registry) {
 			} else {
 				r.Fail(rB, name+"/joins-only", a.W.InstrPos(app), "frontier insertion is not restricted to joins (len(preds) >= 2)")
 			}
+			// which joins and which predecessors are walked (both directions): the
+			// predecessors of b are gone through exactly when b is a join that is
+			// reachable or the root, and the walk starts from exactly the predecessors
+			// that are reachable or the root
+			func() {
+				var enclosing []*Loop
+				for _, l := range fc.Ctx.Loops() {
+					if l.Body[hdr.Index] {
+						enclosing = append(enclosing, l)
+					}
+				}
+				sort.Slice(enclosing, func(i, j int) bool { return len(enclosing[i].Body) < len(enclosing[j].Body) })
+				if len(enclosing) != 3 {
+					r.Fail("C-decision", name+"/joins-walked", b.pos(fn), fmt.Sprintf("expected the walk inside a loop over predecessors inside a loop over nodes, found nesting depth %d", len(enclosing)))
+					return
+				}
+				entryCond := func(outer, inner *Loop) *RF {
+					var start *ssa.BasicBlock
+					for _, sc := range fc.Ctx.LiveSuccs(outer.Header) {
+						if outer.Body[sc.Index] && fc.Ctx.Dominates(sc, inner.Header) {
+							start = sc
+						}
+					}
+					if start == nil {
+						anchorFail("no body entry")
+					}
+					acc := S.False()
+					for _, p := range fc.Ctx.LivePreds(inner.Header) {
+						if inner.Body[p.Index] {
+							continue
+						}
+						acc = S.Or(acc, S.And(fc.ReachCondFrom(start, p), fc.edgeCond(p, inner.Header)))
+					}
+					return acc
+				}
+				b.guard("C-decision", name+"/joins-walked", func() {
+					got := entryCond(enclosing[2], enclosing[1])
+					b.EqUnder("C-decision", name+"/joins-walked", b.pos(fn), fc, got, env, "!(len(g.In(b))<2) && !(idom[b]==-1 && b!=root)")
+				})
+				b.guard("C-decision", name+"/preds-walked", func() {
+					got := entryCond(enclosing[1], enclosing[0])
+					b.EqUnder("C-decision", name+"/preds-walked", b.pos(fn), fc, got, env, "!(idom[pred]==-1 && pred!=root)")
+				})
+			}()
 			// inserted once: a membership scan precedes the insertion
 			scan := false
 			fc.Ctx.Instrs(func(in ssa.Instruction) {
